@@ -1,7 +1,9 @@
 (* C19 — Message type encoding is the RFC 5389 bit layout and a bijection.
    Property theorems only; each is closed by an exact reference to a lemma in Proofs/. *)
-From Coq Require Import NArith.
-From StunV Require Import Model.MsgType Proofs.MsgTypeProofs.
+From Coq Require Import NArith List Bool.
+From StunV Require Import Base.ListAux Base.Bytes Base.Outcome Base.Slice Model.MsgType Model.Message
+  Proofs.MsgTypeProofs Proofs.TypeInHeaderProofs.
+Import ListNotations.
 Open Scope N_scope.
 
 Theorem C19_value_is_rfc : forall m c, m < 4096 -> c < 4 ->
@@ -23,3 +25,56 @@ Print Assumptions C19_bijection.
 Theorem C19_read_ignores_top_bits : forall v, v < 65536 -> read_value v = read_value (v mod 16384).
 Proof. exact read_ignores_top_bits. Qed.
 Print Assumptions C19_read_ignores_top_bits.
+
+(* The type inside a message header.  Writers write the value of the Type FIELD over whatever the first
+   two bytes held; every other byte stays. *)
+Theorem C19_set_type_writes_the_field : forall m meth class m', wf (m_raw m) -> 2 <= len (m_raw m) ->
+  set_type m meth class = Ok m' ->
+  bytes (m_raw m') = be16 (type_value meth class) ++ drop 2 (bytes (m_raw m)) /\
+  m_meth m' = meth /\ m_class m' = class.
+Proof. exact set_type_writes. Qed.
+Print Assumptions C19_set_type_writes_the_field.
+
+Theorem C19_write_type_writes_the_field : forall m m', wf (m_raw m) -> 2 <= len (m_raw m) ->
+  write_type m = Ok m' ->
+  bytes (m_raw m') = be16 (type_value (m_meth m) (m_class m)) ++ drop 2 (bytes (m_raw m)) /\
+  m_meth m' = m_meth m /\ m_class m' = m_class m.
+Proof. exact write_type_writes_field. Qed.
+Print Assumptions C19_write_type_writes_the_field.
+
+(* Readers read the BYTES: the type a decode reports is read_value of the first two bytes, whatever
+   the receiver's Type field held (a field the caller edited without writing it plays no part). *)
+Theorem C19_decode_reads_the_bytes : forall m m', wf (m_raw m) -> decode m = (m', Ok tt) ->
+  (m_meth m', m_class m') = read_value (rd16 (bytes (m_raw m))).
+Proof. exact decode_type_from_bytes. Qed.
+Print Assumptions C19_decode_reads_the_bytes.
+
+Theorem C19_edited_field_is_not_read : forall m meth class m' m'', wf (m_raw m) ->
+  decode m = (m', Ok tt) -> decode (set_mtype m meth class) = (m'', Ok tt) ->
+  m_meth m'' = m_meth m' /\ m_class m'' = m_class m'.
+Proof. exact edited_field_is_not_read. Qed.
+Print Assumptions C19_edited_field_is_not_read.
+
+(* set, then decode: every type of the domain comes back through a message header *)
+Theorem C19_set_type_then_decode : forall m meth class m1 m2, wf (m_raw m) -> 2 <= len (m_raw m) ->
+  meth < 4096 -> class < 4 ->
+  set_type m meth class = Ok m1 -> decode m1 = (m2, Ok tt) ->
+  m_meth m2 = meth /\ m_class m2 = class.
+Proof. exact set_type_then_decode. Qed.
+Print Assumptions C19_set_type_then_decode.
+
+(* non-vacuity: a header-only message whose field says (5, 3) and whose bytes say 0x0001; SetType(0xABC, 2)
+   succeeds, the decode succeeds and reports (0xABC, 2) *)
+Definition ex19_raw : list byte := be16 1 ++ be16 0 ++ be32 554869826 ++ repeatN 7 12.
+Definition ex19_m : msg := mkMsg 5 3 0 (repeatN 0 12) [] true (mkSlice ex19_raw 20 20).
+Example C19_header_nonvacuous :
+  wfb (m_raw ex19_m) = true /\
+  (match set_type ex19_m 2748 2 with
+   | Ok m1 => match decode m1 with
+              | (m2, Ok tt) => (m_meth m2 =? 2748) && (m_class m2 =? 2)
+              | _ => false
+              end
+   | _ => false
+   end) = true /\
+  (match decode ex19_m with (m2, Ok tt) => (m_meth m2 =? 1) && (m_class m2 =? 0) | _ => false end) = true.
+Proof. vm_compute. repeat split. Qed.
